@@ -13,7 +13,11 @@ lean/PedalModel/Gen/TifaTables.lean:
     C18's "completes" clause speaks of "imports of standard modules", so these rows are outside the property:
     they are generated and reported, but no theorem gates on them.
 
-Anything not understood becomes `.other` (never dropped) so that the table theorem fails for it.
+  * typeClassRows : every subclass of pedal's Type with which dictionary a fresh instance's `fields` attribute
+    is - its own copy, or the class-level dictionary itself (then `add_attr` during one analysis changes every
+    later analysis in the process).
+
+Anything not understood becomes `.other` / `.unknown` (never dropped) so that the table theorems fail for it.
 """
 import ast
 import inspect
@@ -135,12 +139,64 @@ def builtin_rows():
     return rows
 
 
+def all_type_classes():
+    """Every subclass of pedal's Type that exists once the builtin tables are loaded (name-sorted, unique names)."""
+    from pedal.types import new_types as nt
+    import pedal.types.builtin  # noqa: F401  (defines nothing new today; a future Type class there must be seen)
+    seen, out, todo = set(), [], [nt.Type]
+    while todo:
+        c = todo.pop()
+        if c in seen:
+            continue
+        seen.add(c)
+        out.append(c)
+        todo.extend(c.__subclasses__())
+    names = {}
+    for c in out:
+        names.setdefault(c.__name__, c)
+    return [names[n] for n in sorted(names)]
+
+
+def construct(cls):
+    """A fresh instance the way the visitor could make one, or None."""
+    from pedal.types import new_types as nt
+    cands = [(), (False,), ([],), ("x",), ("x", {}), (1,), (1.5,), (True,), ("x", [], None), (nt.IntType(),), ([nt.IntType()],)]
+    for args in cands:
+        try:
+            return cls(*args)
+        except Exception:
+            continue
+    return None
+
+
+def class_level_dicts(cls):
+    return [k.__dict__["fields"] for k in cls.__mro__ if isinstance(k.__dict__.get("fields"), dict)]
+
+
+def type_class_rows():
+    rows = []
+    for cls in all_type_classes():
+        dicts = class_level_dicts(cls)
+        if not dicts:
+            rows.append((cls.__name__, ".noClassDict"))
+            continue
+        inst = construct(cls)
+        if inst is None or not isinstance(getattr(inst, "fields", None), dict):
+            rows.append((cls.__name__, ".unknown"))
+        elif any(inst.fields is d for d in dicts):
+            rows.append((cls.__name__, ".classLevel"))
+        else:
+            rows.append((cls.__name__, ".own"))
+    return rows
+
+
 def translate():
     from pedal.tifa.tifa_visitor import Tifa
     methods = sorted(n for n in dir(Tifa) if n.startswith("visit_") and callable(getattr(Tifa, n)))
     has_generic = callable(getattr(Tifa, "generic_visit", None))
     nodes = node_classes()
     rows = builtin_rows()
+    trows = type_class_rows()
     L = []
     L.append("import PedalModel.TifaWrapperTypes")
     L.append("/- GENERATED by harness/translate_tifa.py from pedal/tifa/tifa_visitor.py, pedal/types/builtin.py,")
@@ -167,6 +223,11 @@ def translate():
     L.append(",\n".join("  ⟨%s, %s, %s, %s⟩" % (lean_str(t), lean_str(n), d, r) for t, n, d, r, det in rows if not in_scope(t)))
     L.append("]")
     L.append("")
+    L.append("/-- every Type class: which dictionary a fresh instance's `fields` is (add_attr writes there) -/")
+    L.append("def typeClassRows : List TypeClassRow := [")
+    L.append(",\n".join("  ⟨%s, %s⟩" % (lean_str(n), o) for n, o in trows))
+    L.append("]")
+    L.append("")
     L.append("end Pedal.Gen.Tifa")
     content = "\n".join(L) + "\n"
     changed = write_if_changed(OUT, content)
@@ -176,6 +237,7 @@ def translate():
     return {"changed": changed, "visit_methods": len(methods), "node_classes": len(nodes),
             "rows": len([r for r in rows if in_scope(r[0])]), "extension_rows": len([r for r in rows if not in_scope(r[0])]),
             "rows_not_callable": [list(b) for b in bad if in_scope(b[0])],
+            "type_classes": len(trows), "type_classes_sharing_class_level_fields": [n for n, o in trows if o in (".classLevel", ".unknown")],
             "extension_rows_not_callable (outside the property: not a standard module)": [list(b) for b in bad if not in_scope(b[0])],
             "stmt_expr_classes_on_generic_visit": [n for n, g in nodes if g in ("stmt", "expr") and n in generic_nodes]}
 
